@@ -8,8 +8,10 @@
   the script that btcutil/txscript produce (`none` = recipient does not decode; the address codec is not modelled).
   `sort.Slice` is modelled as "some permutation ordered by the comparator" (theorem `sorted_listing_unique` is about every
   such result, `sortUtxos` is one of them).
-  Bounds (`WF`): ≤ 1000 proposals, amounts and UTXO values ≤ 21·10^14, ≤ 10^6 UTXOs, fee rates ≤ 10^6 sat/vB — under them no
-  uint64/int64 operation wraps; the wrap points are stated separately (`wrap_point_*`), not hidden.
+  Bounds (`WF`): ≤ 10^6 proposals, UTXO values ≤ 21·10^14, ≤ 10^6 UTXOs, fee rates ≤ 10^6 sat/vB — under them no
+  uint64/int64 operation wraps.  Proposal AMOUNTS are unrestricted: the repaired `outputs` refuses a batch whose amounts
+  exceed the bitcoin supply (`beyond_supply_refused`), which covers the int64/uint64 boundaries.  The remaining wrap point
+  (an impossible UTXO value near 2^64) is stated separately (`wrap_point_utxo`), not hidden.
   Not covered: signing/broadcast, the IPFS upload itself, JSON decoding of the service's answers (exercised by the
   correspondence runs through the real MempoolAPI against a loopback server).
 -/
@@ -25,8 +27,14 @@ section Property
     output to the bridge; its inputs are a prefix of the bridge's UTXO list; no output value is negative; inputs minus
     outputs equals the relayer's fee quote for that shape; with an invalid recipient no transaction is produced. -/
 theorem rawTx_P16 (i : Inp) (hwf : WF i) : P16 i (rawTx i) := by
-  obtain ⟨hn, hamt, hr1, hr2, hus⟩ := hwf
+  obtain ⟨hn, hr1, hr2, hus⟩ := hwf
   unfold rawTx
+  by_cases hcap : sumAmounts i.props > maxSat
+  · simp [hcap, P16]
+  simp only [hcap, ↓reduceIte]
+  have hsumB : sumAmounts i.props ≤ 21 * 10 ^ 14 := by unfold maxSat at hcap; omega
+  have hamt : ∀ p ∈ i.props, p.amount ≤ 21 * 10 ^ 14 := fun p hp =>
+    Nat.le_trans (amount_le_sumAmounts i.props p hp) hsumB
   cases hpo : propOuts i.props with
   | none => simp [P16]
   | some po =>
@@ -42,11 +50,8 @@ theorem rawTx_P16 (i : Inp) (hwf : WF i) : P16 i (rawTx i) := by
           have hr1' := hr1 r1 hrate1
           obtain ⟨hlen, hval⟩ := hus us hutx
           obtain ⟨hpl, hps, hpnn⟩ := propOuts_facts i.props po hamt hpo
-          have hsum := sumAmounts_le i.props (21 * 10 ^ 14) hamt
           have hsumM : sumAmounts i.props % M = sumAmounts i.props :=
-            Nat.mod_eq_of_lt (by rw [M_val]; have : i.props.length * (21 * 10 ^ 14) ≤ 1000 * (21 * 10 ^ 14) := Nat.mul_le_mul_right _ hn; omega)
-          have hsumB : sumAmounts i.props ≤ 1000 * (21 * 10 ^ 14) :=
-            Nat.le_trans hsum (Nat.mul_le_mul_right _ hn)
+            Nat.mod_eq_of_lt (by rw [M_val]; omega)
           obtain ⟨_, hestB⟩ := feeOf_bound r1 i.props.length i.props.length hr1' (by omega) (by omega)
           have htgt : (sumAmounts i.props + feeOf r1 i.props.length i.props.length) % M
               = sumAmounts i.props + feeOf r1 i.props.length i.props.length :=
@@ -196,12 +201,16 @@ theorem insufficient_funds_no_tx (i : Inp) (r2 : Nat) (us : List Utxo) (hr : i.r
 
 theorem rawTx_none_of_cannotCover (i : Inp) (hwf : WF i) (r2 : Nat) (us : List Utxo) (hr : i.rate2 = some r2)
     (hu : i.utxos = some us) (hc : cannotCover i r2 us) : rawTx i = none := by
+  by_cases hcap : sumAmounts i.props > maxSat
+  · simp [rawTx, hcap]
+  have hamt : ∀ p ∈ i.props, p.amount ≤ 21 * 10 ^ 14 := fun p hp =>
+    Nat.le_trans (amount_le_sumAmounts i.props p hp) (by unfold maxSat at hcap; omega)
   cases h : rawTx i with
   | none => rfl
   | some tx =>
     have := rawTx_P16 i hwf
     rw [h] at this
-    exact absurd this (insufficient_funds_no_tx i r2 us hr hu hwf.2.1 hc tx)
+    exact absurd this (insufficient_funds_no_tx i r2 us hr hu hamt hc tx)
 
 /-- an invalid recipient admits no transaction (any outcome satisfying `P16`, hence `rawTx`) -/
 theorem invalid_recipient_no_tx (i : Inp) (p : Prp) (hp : p ∈ i.props) (hs : p.script = none) (tx : Tx) :
@@ -264,9 +273,10 @@ example :
 
 /-- the message handler's division undoes the source's ×10^10 exactly (no wrap below 2^64·10^10) -/
 theorem msgAmount_exact (amountBytes : Bytes) (d : Nat) (h : beToNat amountBytes = d * 10 ^ 10) (hd : d < M) :
-    msgAmount amountBytes = d := by
+    msgAmount amountBytes = some d := by
   unfold msgAmount
-  rw [h, Nat.mul_div_cancel _ (by decide), Nat.mod_eq_of_lt hd]
+  rw [h, Nat.mul_div_cancel _ (by decide)]
+  simp [hd]
 
 /-! ### selection of the batch: each deposit at most once -/
 
@@ -359,8 +369,15 @@ end Selection
 
 /-! ### wrap points (outside `WF`), stated rather than hidden -/
 
-/-- a proposal amount ≥ 2^63 becomes a negative output value (`int64` cast) -/
-theorem wrap_point_amount : toInt64 (2 ^ 63) = -(2 ^ 63 : Int) := by decide
+/-- amounts beyond the bitcoin supply (a single amount or the batch total above 21·10^14 — in particular everything at
+    the int64 / uint64 boundaries) are refused: no transaction.  This is why `WF` needs no bound on the amounts. -/
+theorem beyond_supply_refused (i : Inp) (h : sumAmounts i.props > maxSat) : rawTx i = none := by
+  simp [rawTx, h]
+
+/-- the message handler refuses what does not fit 64 bits instead of keeping the low 64 bits -/
+theorem msgAmount_overflow (amountBytes : Bytes) (h : M ≤ beToNat amountBytes / 10 ^ 10) : msgAmount amountBytes = none := by
+  unfold msgAmount
+  simp [Nat.not_lt.2 h]
 
 /-- with a UTXO value near 2^64 the running input total wraps: the model then builds a transaction violating P16 -/
 theorem wrap_point_utxo :
